@@ -1,7 +1,8 @@
 (* The abstract prime-order curve the algebraic theorems are stated over: affine points with the
    negation (x, y) -> (x, p - y), an addition satisfying the group laws on the points of the curve,
    a generator of order exactly n, no point of order two, x determines a point up to sign, and lift_x
-   returning the even-y point with a given x.  These are premises of the theorems (DESIGN.md 5.5),
+   returning the even-y point with a given x (for x >= 0 only: the code calls lift_x on int.from_bytes
+   values, and lift_x of Model/EC.v returns an unreduced abscissa on negative x).  These are premises of the theorems (DESIGN.md 5.5),
    never axioms; Proofs/ToyCurve.v shows the affine formulas of Model/EC.v satisfy all of them on a
    small curve of the same shape. *)
 From Coq Require Import ZArith List Bool.
@@ -38,7 +39,7 @@ Section Laws.
     cl_order : smul n G = None /\ (forall k, 0 < k < n -> smul k G <> None);
     cl_cyclic : forall P, on P -> exists k, 0 <= k < n /\ P = smul k G;
     cl_x_det : forall x y y', on (Some (x, y)) -> on (Some (x, y')) -> y' = y \/ y' = p - y;
-    cl_lift_some : forall x P, lift x = P -> P <> None -> exists y, P = Some (x, y) /\ on P /\ Z.even y = true;
-    cl_lift_none : forall x, lift x = None -> forall y, ~ on (Some (x, y))
+    cl_lift_some : forall x P, 0 <= x -> lift x = P -> P <> None -> exists y, P = Some (x, y) /\ on P /\ Z.even y = true;
+    cl_lift_none : forall x, 0 <= x -> lift x = None -> forall y, ~ on (Some (x, y))
   }.
 End Laws.
